@@ -131,6 +131,9 @@ def cases(draw: Any) -> Dict[str, Any]:
     spec = draw(mmgen.specs(opts))
     text = mmgen.render(spec)
     case = {"kind": kind, "text": text}  # type: Dict[str, Any]
+    if draw(st.integers(0, 7)) == 0:
+        # the same text under a different file encoding / line-ending convention: both tools read the file themselves
+        case["file_variant"] = draw(st.sampled_from(sut.FILE_VARIANTS))
     if kind == "mutated":
         names = []
         for _ in range(draw(st.sampled_from([1, 1, 2]))):
@@ -182,13 +185,13 @@ def _run_target(text: str, target: str, base: pathlib.Path, extra: Optional[Dict
         return None, "", runner.exc_bucket(e)
 
 
-def run_smoke(text: str, base: pathlib.Path) -> Tuple[Any, str, Optional[str], Optional[str]]:
+def run_smoke(text: Any, base: pathlib.Path) -> Tuple[Any, str, Optional[str], Optional[str]]:
     from aas_core_codegen.smoke import main as smoke_main
 
     d = sut.fresh_dir(base, "c28")
     try:
         mp = d / "meta_model.py"
-        mp.write_text(text, encoding="utf-8")
+        sut.write_model(mp, text)
         err = io.StringIO()
         try:
             rc = smoke_main.execute(model_path=mp, stderr=err)
@@ -201,9 +204,13 @@ def run_smoke(text: str, base: pathlib.Path) -> Tuple[Any, str, Optional[str], O
         shutil.rmtree(d, ignore_errors=True)
 
 
-def evaluate(text: str, base: pathlib.Path) -> Dict[str, Any]:
+def evaluate(text: Any, base: pathlib.Path, file_variant: Optional[str] = None) -> Dict[str, Any]:
     res = {"fails": [], "classes": [], "nt": False, "excluded": []}  # type: Dict[str, Any]
     exc_buckets = set()
+    src_text = text
+    if file_variant is not None:
+        text = sut.file_bytes(text, file_variant)
+        res["classes"].append(f"file-variant:{file_variant}")
 
     # fe
     try:
@@ -232,7 +239,7 @@ def evaluate(text: str, base: pathlib.Path) -> Dict[str, Any]:
                 bj, bx = bullets(err_j), bullets(err_x)
                 if bj and set(bj) <= set(bx):
                     inf = "failed"
-        sn = dummy_snippets_csharp(text)
+        sn = dummy_snippets_csharp(src_text)
         rc_c, err_c, ex_c = _run_target(text, "csharp", base, extra=sn)
         if ex_c is not None:
             exc_buckets.add(ex_c)
@@ -246,7 +253,9 @@ def evaluate(text: str, base: pathlib.Path) -> Dict[str, Any]:
 
     rc, err, ex, ex_text = run_smoke(text, base)
     if ex is not None:
-        if ex in exc_buckets:
+        if ex in exc_buckets or (fe == "crash" and ex.split("@")[0] in {b.split("@")[0] for b in exc_buckets}):
+            # the second case: the smoke tool reads and parses the file itself, so the same front-end crash
+            # (e.g. UnicodeDecodeError for a file that is not UTF-8) surfaces in its own frame (C01's)
             res["excluded"].append(f"exception-also-in-generators:{ex}")
             res["classes"].append("smoke:crash-shared")
         else:
@@ -316,18 +325,18 @@ def shard(ctx: runner.Ctx) -> None:
     n = ctx.n(800, 40_000)
 
     def one(case: Dict[str, Any]) -> None:
-        res = evaluate(case["text"], ctx.scratch)
+        res = evaluate(case["text"], ctx.scratch, case.get("file_variant"))
         for r in res["excluded"]:
             ctx.exclude(r)
         classes = [f"kind:{case['kind']}"] + res["classes"]
         if "injected" in case:
             classes.append(f"late:{case['injected']}")
-        ctx.case(res["nt"], key=case["text"],
-                 sample={"kind": case["kind"], "injected": case.get("injected"), "mutations": case.get("mutations"),
+        ctx.case(res["nt"], key=[case["text"], case.get("file_variant")],
+                 sample={"kind": case["kind"], "file_variant": case.get("file_variant"), "injected": case.get("injected"), "mutations": case.get("mutations"),
                          "classes": res["classes"], "text_tail": case["text"][-400:]},
                  classes=classes)
         for b, m in res["fails"]:
-            ctx.fail(b, {"text": case["text"]}, m)
+            ctx.fail(b, {"text": case["text"], "file_variant": case.get("file_variant")}, m)
 
     runner.hyp_run(cases(), one, n, ctx.seed)
 
@@ -351,7 +360,8 @@ def replay(case: Any) -> List[Tuple[str, str]]:
         return []
     base = runner.make_scratch("c28-replay")
     try:
-        return evaluate(case["text"], base)["fails"]
+        fv = case.get("file_variant")
+        return evaluate(case["text"], base, fv if fv in sut.FILE_VARIANTS else None)["fails"]
     finally:
         shutil.rmtree(base, ignore_errors=True)
 
